@@ -211,6 +211,43 @@ Proof.
   destruct w; [exact I|]. split; [apply Inv_init|]. simpl. destruct (fix_tried v); reflexivity.
 Qed.
 
+(** acceptance call by call implies acceptance of the text *)
+Lemma flat_app a b : flat (a ++ b) = (flat a ++ flat b)%string.
+Proof.
+  induction a as [|x a IH]; simpl; [reflexivity|]. rewrite IH.
+  induction x as [|ch x IHx]; simpl; [reflexivity | f_equal; exact IHx].
+Qed.
+
+Lemma str_prefix_app x a b : str_prefix (x ++ a) (x ++ b) = str_prefix a b.
+Proof. induction x as [|ch x IH]; simpl; [reflexivity | rewrite Ascii.eqb_refl; exact IH]. Qed.
+
+Lemma is_prefix_flat : forall a b, is_prefix a b = true -> str_prefix (flat a) (flat b) = true.
+Proof.
+  induction a as [|x a IH]; intros b H; [reflexivity|].
+  destruct b as [|y b]; [discriminate|]. simpl in H. apply andb_true_iff in H as [E H].
+  apply String.eqb_eq in E. subst y. simpl. rewrite str_prefix_app. apply IH. exact H.
+Qed.
+
+Lemma nil_no_text os : forallb (@is_nil string) os = true -> forallb no_text os = true.
+Proof.
+  induction os as [|o os IH]; simpl; [reflexivity|]. intros H. apply andb_true_iff in H as [N H].
+  destruct o; [|discriminate]. rewrite IH by assumption. reflexivity.
+Qed.
+
+Lemma judge_implies_text ws : forall chunks obs B resp d,
+  judge ws B resp chunks obs = (true, d) -> judge_text ws B resp chunks obs = (true, d).
+Proof.
+  induction chunks as [|c cs IH]; intros obs B resp d J; destruct obs as [|o os]; try discriminate.
+  - exact J.
+  - cbn [judge judge_text] in *. destruct (raises ws resp B c).
+    + injection J as J <-.
+      apply andb_true_iff in J as [J L]. apply andb_true_iff in J as [P N].
+      rewrite (is_prefix_flat _ _ P), (nil_no_text _ N), L. reflexivity.
+    + destruct (strs_eqb o (full_writes ws B c)) eqn:E; [|discriminate].
+      apply (list_eqb_eq String.eqb String.eqb_eq) in E. subst o.
+      rewrite String.eqb_refl. apply IH. exact J.
+Qed.
+
 Lemma feed_stream_spec v ws chunks :
   guard_stream (fix_index v) (fix_tried v) ws [] (map (fun _ => false) ws) true chunks = true ->
   spec_stream ws chunks (fst (feed_stream v ws chunks)) (snd (feed_stream v ws chunks)) = true.
@@ -218,7 +255,7 @@ Proof.
   intros G. unfold spec_stream, feed_stream.
   pose proof (feed_judge v ws chunks (s0 ws) (map (fun _ => false) ws) true eq_refl
                          (WInvs_init v _ ws) G) as J.
-  cbn [s_buf s0] in J. rewrite J. simpl. apply eqb_reflx.
+  cbn [s_buf s0] in J. rewrite (judge_implies_text _ _ _ _ _ _ J). simpl. apply eqb_reflx.
 Qed.
 
 (** * Two streams under any interleaving: each thread behaves as if alone *)
@@ -516,3 +553,42 @@ Theorem call_meets_spec cfg_ws kw_ws sudo sched how :
           (fst (run current ws sched)) (snd (run current ws sched))
           (outcome_exn how (snd (run current ws sched))) = true.
 Proof. cbv zeta. rewrite call_watchers_spec. apply current_meets_spec. Qed.
+
+(** * F-C12d: the caller's input stream at end-of-file *)
+Lemma nonempty_writes_false_all_nil : forall l,
+  nonempty_writes l = false -> map (fun _ : list string => @nil string) l = l.
+Proof.
+  induction l as [|o l IH]; simpl; [reflexivity|]. destruct o; [|discriminate].
+  intros H. rewrite IH by assumption. reflexivity.
+Qed.
+
+Lemma nonempty_pick sid : forall sched w,
+  nonempty_writes w = false -> nonempty_writes (pick_stream sid sched w) = false.
+Proof.
+  induction sched as [|[s c] sched IH]; intros w H; destruct w as [|o w]; try reflexivity.
+  simpl in *. apply orb_false_iff in H as [H1 H2].
+  destruct (Bool.eqb s sid); simpl; rewrite ?H1; apply IH; assumption.
+Qed.
+
+(** nothing to answer: the closed stdin does not matter *)
+Theorem eof_harmless_without_responses v ws sched :
+  nonempty_writes (fst (run v ws sched)) = false ->
+  run_eof v ws sched = (fst (run v ws sched), snd (run v ws sched), false).
+Proof.
+  intros H. unfold run_eof. destruct (run v ws sched) as [w r]. cbn [fst snd] in *.
+  rewrite (nonempty_pick false _ _ H), (nonempty_pick true _ _ H), !andb_true_r.
+  rewrite (nonempty_writes_false_all_nil _ H). destruct r; reflexivity.
+Qed.
+
+Theorem eof_refuted :
+  exists ws sched,
+    (* with stdin left alone the prompt is answered ... *)
+    run current ws sched = ([["x"]], (false, false)) /\
+    (* ... with the input stream at EOF nothing arrives and the run dies of ThreadException *)
+    run_eof current ws sched = ([[]], (false, false), true) /\
+    spec_ok ws sched ViaRun (fst (fst (run_eof current ws sched))) (snd (fst (run_eof current ws sched)))
+            (outcome_exn_eof ViaRun (snd (fst (run_eof current ws sched))) (snd (run_eof current ws sched)))
+    = false.
+Proof.
+  exists [WResp (lit "P:") "x"], [(false, "P:"%string)]. vm_compute. repeat split; reflexivity.
+Qed.
